@@ -31,6 +31,17 @@ type Hooks struct {
 	Go func(site int, fn func())
 	// Foreign is told about goroutines started at uncontrolled go sites.
 	Foreign func(site int)
+	// Critical is told when the calling task enters (+1) or leaves (-1) a
+	// critical section of the code under test (a held sync.Mutex / RWMutex,
+	// the function run by sync.Once.Do): the scheduler does not preempt
+	// inside one, so no other task can ever block on it.
+	Critical func(delta int)
+	// BlockBegin / BlockEnd bracket an operation of the code under test that
+	// may wait for another task (channel send / receive, select without
+	// default, WaitGroup.Wait, Cond.Wait): the scheduler takes the token
+	// away for the duration and hands it back afterwards.
+	BlockBegin func(site int) interface{}
+	BlockEnd   func(tok interface{})
 	// Client sees every http.Client the code under test constructs, so a
 	// client that brings its own Transport is routed to the simulated
 	// network as well.
@@ -185,4 +196,88 @@ func HTTPClientV(c http.Client) http.Client {
 		return *h.Client(&c)
 	}
 	return c
+}
+
+// DoLock wraps x.Lock / x.RLock (passed as a method value).
+func DoLock(lock func()) {
+	lock()
+	if h := H; h != nil && h.Critical != nil {
+		h.Critical(+1)
+	}
+}
+
+// DoUnlock wraps x.Unlock / x.RUnlock.
+func DoUnlock(unlock func()) {
+	if h := H; h != nil && h.Critical != nil {
+		h.Critical(-1)
+	}
+	unlock()
+}
+
+// DoTryLock wraps x.TryLock / x.TryRLock.
+func DoTryLock(try func() bool) bool {
+	ok := try()
+	if ok {
+		if h := H; h != nil && h.Critical != nil {
+			h.Critical(+1)
+		}
+	}
+	return ok
+}
+
+// DoOnce wraps once.Do(f).
+func DoOnce(do func(func()), f func()) {
+	h := H
+	if h != nil && h.Critical != nil {
+		h.Critical(+1)
+		defer h.Critical(-1)
+	}
+	do(f)
+}
+
+// BlockBegin / BlockEnd bracket a possibly blocking operation.
+func BlockBegin(site int) interface{} {
+	if h := H; h != nil && h.BlockBegin != nil {
+		return h.BlockBegin(site)
+	}
+	return nil
+}
+
+func BlockEnd(tok interface{}) {
+	if tok == nil {
+		return
+	}
+	if h := H; h != nil && h.BlockEnd != nil {
+		h.BlockEnd(tok)
+	}
+}
+
+// DoBlocking wraps wg.Wait / cond.Wait (passed as a method value).
+func DoBlocking(site int, wait func()) {
+	tok := BlockBegin(site)
+	wait()
+	BlockEnd(tok)
+}
+
+// Recv wraps a channel receive expression.
+func Recv[T any](site int, ch <-chan T) T {
+	tok := BlockBegin(site)
+	v := <-ch
+	BlockEnd(tok)
+	return v
+}
+
+// Recv2 wraps `v, ok := <-ch`.
+func Recv2[T any](site int, ch <-chan T) (T, bool) {
+	tok := BlockBegin(site)
+	v, ok := <-ch
+	BlockEnd(tok)
+	return v, ok
+}
+
+// Send wraps a channel send statement.
+func Send[T any](site int, ch chan<- T, v T) {
+	tok := BlockBegin(site)
+	ch <- v
+	BlockEnd(tok)
 }
